@@ -32,11 +32,30 @@ Theorem arith_exact_when_fits : forall n a b, 0 < n ->
 Proof. intros. unfold iadd, isub, imul. repeat split; intro; now apply wrap_id. Qed.
 
 (* division truncates toward zero; the remainder has the sign of the dividend *)
+Lemma quot_in_range : forall h a b, 0 < h -> - h <= a < h -> - h <= b < h -> b <> 0 ->
+  ~ (a = - h /\ b = -1) -> - h <= Z.quot a b < h.
+Proof.
+  intros h a b Hh Ha Hb Hb0 Hov.
+  assert (Habs : Z.abs (Z.quot a b) <= Z.abs a).
+  { rewrite <- Z.quot_abs by assumption.
+    apply Z.quot_le_upper_bound; [lia|]. nia. }
+  destruct (Z.eq_dec (Z.quot a b) h) as [E|NE]; [|lia].
+  exfalso.
+  pose proof (Z.quot_rem' a b) as Hqr. rewrite E in Hqr.
+  pose proof (Z.rem_bound_abs a b Hb0) as Hr.
+  assert (Ha' : a = - h) by lia.
+  destruct (Z_lt_le_dec b 0) as [Hneg|Hpos].
+  - (* b <= -1 : a = b*h + r <= -h*|b| + |b| - 1 *)
+    destruct (Z.eq_dec b (-1)) as [B|B]; [apply Hov; split; assumption|].
+    assert (b <= -2) by lia. nia.
+  - assert (1 <= b) by lia. nia.
+Qed.
+
 Theorem div_truncates : forall n a b, 0 < n -> in_range n a -> in_range n b ->
   b <> 0 -> div_overflows n a b = false ->
   exists q r, idiv n a b = IVal q /\ imod n a b = IVal r /\
     a = b * q + r /\ Z.abs r < Z.abs b /\ (r = 0 \/ Z.sgn r = Z.sgn a) /\
-    Z.abs (b * q) <= Z.abs a /\ in_range n q /\ in_range n r.
+    in_range n q /\ in_range n r.
 Proof.
   intros n a b Hn Ha Hb Hb0 Hov.
   exists (Z.quot a b), (Z.rem a b).
@@ -44,10 +63,173 @@ Proof.
   destruct (b =? 0) eqn:E; [apply Z.eqb_eq in E; contradiction|].
   pose proof (Z.quot_rem' a b) as Hqr.
   pose proof (Z.rem_bound_abs a b Hb0) as Hrb.
+  pose proof (half_pos n Hn) as Hh.
   assert (Hsgn : Z.rem a b = 0 \/ Z.sgn (Z.rem a b) = Z.sgn a).
-  { destruct (Z.eq_dec (Z.rem a b) 0); [left; assumption | right; now apply Z.rem_sign]. }
-  assert (Habs : Z.abs (b * Z.quot a b) <= Z.abs a).
-  { rewrite Z.mul_comm. apply Z.mul_quot_le_abs... }
-  repeat split; try assumption; try reflexivity.
-  all: unfold in_range in *; unfold div_overflows, int_min in Hov.
-Abort.
+  { destruct (Z.eq_dec (Z.rem a b) 0); [left; assumption | right; now apply Z.rem_sign_nz]. }
+  assert (Hq : in_range n (Z.quot a b)).
+  { unfold in_range. apply quot_in_range; try assumption.
+    unfold div_overflows, int_min in Hov. intros [A B]. subst.
+    rewrite !Z.eqb_refl in Hov. discriminate. }
+  assert (Hr : in_range n (Z.rem a b)).
+  { unfold in_range in *. lia. }
+  split; [reflexivity|]. split; [reflexivity|]. split; [assumption|].
+  split; [assumption|]. split; [assumption|]. split; assumption.
+Qed.
+
+(* the two excluded operand pairs *)
+Theorem div_by_zero_faults : forall n a, idiv n a 0 = IDivZero /\ imod n a 0 = IDivZero.
+Proof. intros. unfold idiv, imod. cbn. split; reflexivity. Qed.
+
+Theorem div_overflow_traps : forall n, 0 < n ->
+  idiv n (int_min n) (-1) = ISigFpe /\ imod n (int_min n) (-1) = ISigFpe.
+Proof.
+  intros n Hn. unfold idiv, imod, div_overflows. cbn.
+  rewrite Z.eqb_refl. cbn. split; reflexivity.
+Qed.
+
+(* comparisons: a total order, exactly one of < = > holds; the others are derived *)
+Theorem compare_total_int : forall a b,
+  ilt a b + ieq a b + igt a b = 1 /\
+  ile a b = ilt a b + ieq a b /\ ige a b = igt a b + ieq a b /\
+  ine a b = 1 - ieq a b /\
+  (ilt a b = 1 <-> a < b) /\ (ieq a b = 1 <-> a = b) /\ (igt a b = 1 <-> b < a).
+Proof.
+  intros a b. unfold ilt, ieq, igt, ile, ige, ine, b2z.
+  destruct (Z.ltb_spec a b); destruct (Z.eqb_spec a b); destruct (Z.ltb_spec b a);
+  destruct (Z.leb_spec a b); destruct (Z.leb_spec b a); cbn; try lia;
+  (split; [lia|]); (split; [lia|]); (split; [lia|]); (split; [lia|]);
+  (split; [split; intro; (lia || discriminate)|]);
+  (split; split; intro; (lia || discriminate)).
+Qed.
+
+(* ---- bit operations ---------------------------------------------------------------- *)
+
+Lemma unsigned_as_land : forall n a, 0 <= n -> unsigned n a = Z.land a (Z.ones n).
+Proof. intros. unfold unsigned, modulus. now rewrite Z.land_ones. Qed.
+
+Lemma land_lxor_distr_l : forall a b c, Z.land (Z.lxor a b) c = Z.lxor (Z.land a c) (Z.land b c).
+Proof.
+  intros. apply Z.bits_inj'. intros i Hi.
+  rewrite Z.lxor_spec, !Z.land_spec, Z.lxor_spec.
+  destruct (Z.testbit a i), (Z.testbit b i), (Z.testbit c i); reflexivity.
+Qed.
+
+Lemma land_ones_idem : forall a b n, Z.land (Z.land a (Z.ones n)) (Z.land b (Z.ones n))
+                                     = Z.land (Z.land a b) (Z.ones n).
+Proof.
+  intros. apply Z.bits_inj'. intros i Hi. rewrite !Z.land_spec.
+  destruct (Z.testbit a i), (Z.testbit b i), (Z.testbit (Z.ones n) i); reflexivity.
+Qed.
+
+Lemma signed_unsigned_id : forall n x, 0 < n -> in_range n x -> signed n (unsigned n x) = x.
+Proof. intros. now apply wrap_id. Qed.
+
+Lemma top_land : forall x y, (x = 0 \/ x = -1) -> (y = 0 \/ y = -1) ->
+  Z.land x y = 0 \/ Z.land x y = -1.
+Proof. intros x y [->| ->] [->| ->]; cbn; auto. Qed.
+Lemma top_lor : forall x y, (x = 0 \/ x = -1) -> (y = 0 \/ y = -1) ->
+  Z.lor x y = 0 \/ Z.lor x y = -1.
+Proof. intros x y [->| ->] [->| ->]; cbn; auto. Qed.
+Lemma top_lxor : forall x y, (x = 0 \/ x = -1) -> (y = 0 \/ y = -1) ->
+  Z.lxor x y = 0 \/ Z.lxor x y = -1.
+Proof. intros x y [->| ->] [->| ->]; cbn; auto. Qed.
+
+Lemma land_in_range : forall n a b, 0 < n -> in_range n a -> in_range n b -> in_range n (Z.land a b).
+Proof.
+  intros n a b Hn Ha Hb. apply in_range_shiftr in Ha; [|assumption].
+  apply in_range_shiftr in Hb; [|assumption]. apply in_range_shiftr; [assumption|].
+  rewrite Z.shiftr_land. now apply top_land.
+Qed.
+Lemma lor_in_range : forall n a b, 0 < n -> in_range n a -> in_range n b -> in_range n (Z.lor a b).
+Proof.
+  intros n a b Hn Ha Hb. apply in_range_shiftr in Ha; [|assumption].
+  apply in_range_shiftr in Hb; [|assumption]. apply in_range_shiftr; [assumption|].
+  rewrite Z.shiftr_lor. now apply top_lor.
+Qed.
+Lemma lxor_in_range : forall n a b, 0 < n -> in_range n a -> in_range n b -> in_range n (Z.lxor a b).
+Proof.
+  intros n a b Hn Ha Hb. apply in_range_shiftr in Ha; [|assumption].
+  apply in_range_shiftr in Hb; [|assumption]. apply in_range_shiftr; [assumption|].
+  rewrite Z.shiftr_lxor. now apply top_lxor.
+Qed.
+
+(* & | ^ ~ on the n-bit patterns of signed operands are Z.land / Z.lor / Z.lxor / Z.lnot of
+   the (unbounded, two's-complement) integers themselves *)
+Theorem bitops_are_two_complement : forall n a b, 0 < n -> in_range n a -> in_range n b ->
+  iand n a b = Z.land a b /\ ior n a b = Z.lor a b /\ ixor n a b = Z.lxor a b /\
+  ibnot n a = Z.lnot a /\
+  in_range n (iand n a b) /\ in_range n (ior n a b) /\ in_range n (ixor n a b) /\
+  in_range n (ibnot n a).
+Proof.
+  intros n a b Hn Ha Hb.
+  assert (Hn0 : 0 <= n) by lia.
+  assert (E1 : iand n a b = Z.land a b).
+  { unfold iand. rewrite !unsigned_as_land by assumption. rewrite land_ones_idem.
+    rewrite <- unsigned_as_land by assumption.
+    apply signed_unsigned_id; [assumption|]. now apply land_in_range. }
+  assert (E2 : ior n a b = Z.lor a b).
+  { unfold ior. rewrite !unsigned_as_land by assumption. rewrite <- Z.land_lor_distr_l.
+    rewrite <- unsigned_as_land by assumption.
+    apply signed_unsigned_id; [assumption|]. now apply lor_in_range. }
+  assert (E3 : ixor n a b = Z.lxor a b).
+  { unfold ixor. rewrite !unsigned_as_land by assumption. rewrite <- land_lxor_distr_l.
+    rewrite <- unsigned_as_land by assumption.
+    apply signed_unsigned_id; [assumption|]. now apply lxor_in_range. }
+  assert (Hnot : in_range n (Z.lnot a)).
+  { unfold Z.lnot, in_range in *. lia. }
+  assert (E4 : ibnot n a = Z.lnot a).
+  { unfold ibnot.
+    pose proof (unsigned_range n a Hn) as Hu. pose proof (modulus_pos n Hn0) as Hm.
+    assert (U : modulus n - 1 - unsigned n a = unsigned n (Z.lnot a)).
+    { unfold unsigned, Z.lnot.
+      apply Z.mod_unique with (q := - (a / modulus n) - 1).
+      - pose proof (Z.mod_pos_bound a (modulus n) Hm). lia.
+      - pose proof (Z.div_mod a (modulus n) ltac:(lia)). lia. }
+    rewrite U. now apply signed_unsigned_id. }
+  rewrite E1, E2, E3, E4.
+  split; [reflexivity|]. split; [reflexivity|]. split; [reflexivity|]. split; [reflexivity|].
+  split; [now apply land_in_range|]. split; [now apply lor_in_range|].
+  split; [now apply lxor_in_range|]. assumption.
+Qed.
+
+(* shifts with an in-range count *)
+Theorem shift_in_range : forall n a k, 0 < n -> in_range n a -> shift_ok n k = true ->
+  ishl n a k = wrap n (a * 2 ^ k) /\
+  ishr n a k = a / 2 ^ k /\
+  in_range n (ishl n a k) /\ in_range n (ishr n a k).
+Proof.
+  intros n a k Hn Ha Hk. unfold shift_ok in Hk.
+  apply andb_true_iff in Hk. destruct Hk as [K1 K2].
+  apply Z.leb_le in K1. apply Z.ltb_lt in K2.
+  assert (Ek : shcount n k = k) by (unfold shcount; apply Z.mod_small; lia).
+  assert (Hp : 0 < 2 ^ k) by (apply Z.pow_pos_nonneg; lia).
+  assert (E1 : ishl n a k = wrap n (a * 2 ^ k)).
+  { unfold ishl. rewrite Ek. rewrite Z.shiftl_mul_pow2 by lia.
+    apply wrap_eq_of_congr; [assumption|].
+    pose proof (modulus_pos n ltac:(lia)).
+    unfold unsigned. rewrite Z.mul_mod_idemp_l by lia. reflexivity. }
+  assert (E2 : ishr n a k = a / 2 ^ k).
+  { unfold ishr. rewrite Ek. now rewrite Z.shiftr_div_pow2 by lia. }
+  rewrite E1, E2.
+  split; [reflexivity|]. split; [reflexivity|]. split; [now apply wrap_in_range|].
+  unfold in_range in *. pose proof (half_pos n Hn).
+  split.
+  - apply Z.div_le_lower_bound; [lia|]. nia.
+  - apply Z.div_lt_upper_bound; [lia|]. nia.
+Qed.
+
+(* int <-> long *)
+Theorem conv_int_long_exact : forall a,
+  (in_range 32 a -> in_range 64 (i2l a) /\ l2i (i2l a) = a) /\
+  (in_range 32 (l2i a) /\ (l2i a) mod 2 ^ 32 = a mod 2 ^ 32) /\
+  (in_range 32 a -> l2i a = a).
+Proof.
+  intros a. unfold i2l, l2i.
+  assert (H32 : 0 < 32) by lia.
+  split; [|split].
+  - intro H. split.
+    + unfold in_range, half in *. cbn in *. lia.
+    + now apply wrap_id.
+  - split; [now apply wrap_in_range | now apply (wrap_congr 32 a)].
+  - intro. now apply wrap_id.
+Qed.
